@@ -206,9 +206,9 @@ func build(t *rapid.T, data []byte) *subject {
 		f.Write([]byte(header))
 		f.Write(data)
 		f.Seek(int64(len(header)), io.SeekStart)
+		os.Remove(f.Name()) // (the open file stays readable; nothing is left behind whatever happens next)
 		s.c = mkr(f)
 		f.Close()
-		os.Remove(f.Name())
 		s.data = data
 	case "reader-nil":
 		s.c = mkr(nil)
